@@ -77,13 +77,23 @@ def run_shards(pid, shards, jobs):
                 raise HarnessError(err)
             results[idx] = res
     else:
+        # (an executor, not multiprocessing.Pool: a worker that dies -- e.g. a C-stack overflow on
+        # deeply nested input -- must end the run with a harness error, not hang it)
+        import concurrent.futures as cf
         ctx = multiprocessing.get_context('fork')
-        with ctx.Pool(min(jobs, len(tasks))) as pool:
-            for idx, res, err in pool.imap_unordered(_work, tasks, chunksize=1):
-                if err:
-                    pool.terminate()
-                    raise HarnessError(err)
-                results[idx] = res
+        with cf.ProcessPoolExecutor(max_workers=min(jobs, len(tasks)), mp_context=ctx) as ex:
+            futs = [ex.submit(_work, t) for t in tasks]
+            try:
+                for fut in cf.as_completed(futs):
+                    idx, res, err = fut.result()
+                    if err:
+                        raise HarnessError(err)
+                    results[idx] = res
+            except cf.process.BrokenProcessPool as e:
+                raise HarnessError('a shard worker died: %s' % e)
+            finally:
+                for f in futs:
+                    f.cancel()
     for idx in sorted(results):
         total.merge(results[idx])
     return total
